@@ -5,7 +5,8 @@ PID = 'C20'
 
 
 def items():
-    return messages.scenarios() + [s for s in packets.scenarios() + partial.scenarios() if PID in s.props] + compression.scenarios()
+    return messages.scenarios() + [s for s in packets.scenarios() + partial.scenarios() if PID in s.props] + compression.scenarios() + \
+        [s for s in __import__('contracts.armor', fromlist=['x']).scenarios() if PID in s.props]       # 'import from binary or armor'
 
 
 def run(tier='quick', seed=0, only=None):
@@ -13,7 +14,8 @@ def run(tier='quick', seed=0, only=None):
     bounded = []
     if not only:
         from bounded import messages as _b
-        bounded = [_b.component, codecs.partial_lengths_bounded]     # imported messages may use partial body lengths (4.2.2.4)
+        from bounded import armor as _ba
+        bounded = [_b.component, codecs.partial_lengths_bounded, _ba.short_crc_component]     # imported messages may use partial body lengths (4.2.2.4)
     return runner.run_property(PID, its, bounded=bounded, tier=tier, seed=seed, level='proof',
                                trusted_base=['pyvc symbolic executor', 'z3 5.1 / cvc5 1.0.3'],
                                assumptions=['compression externals (zlib/bz2): contracts stated in contracts/compression.py (framing of zlib.compress; zlib.decompress takes every RFC 1951 stream exactly with wbits=-15); that they are inverse pairs is checked natively, bounded'])
